@@ -1302,7 +1302,7 @@ def evaluate(ctx, res, label, case, data, model, judge, dtmodel=None, crt=None):
             detail = {'described': next((c for c in data['classes'] if c['m'] == name), None),
                       'class chain': next((m.get('mro') for m in rec['node']['modules'] if m['name'] == name), None),
                       'configuration': next(((m.get('init') or {}).get('cfg') for m in rec['node']['modules'] if m['name'] == name), None)}
-        elif kind in ('unregistered-module', 'lists'):
+        elif kind in ('unregistered-module', 'registered-not-exported', 'registration-order', 'lists'):
             detail = {'described modules': [m['name'] for m in data['report1']], 'registry': data.get('registry'),
                       'configuration': data.get('create')}
         elif kind in ('unstable', 'unstable-untouched'):
